@@ -12,7 +12,7 @@ Inductive tobs := TErr (cls : string) | TText (text : string) (readeq evalsame :
 Inductive case :=
 | DCase (v : obj) (form : fobs) (r : robs) (equal : bool) (texts : list (N * tobs))
 (* a session: the history of definition forms; whether it uses text-level features outside the model (backquote,
-   function quote, doc strings the printer mangles, hash tables with several entries); the user forms of the first
+   function quote, doc strings the printer mangles); the user forms of the first
    snapshot; whether each of them loaded in the fresh process; the user forms of the second snapshot; whether the
    user part of the two snapshot TEXTS is identical; whether every probe gave the same result in both processes *)
 | SCase (hist : list obj) (wildtext : bool) (snapfail : bool)   (* snapfail: (snapshot nil) itself failed *)
@@ -24,11 +24,8 @@ Definition is_unmodelled {A} (r : res A) : bool := match r with Err EUnmodelled 
 (* The texts: the first one (margin 0) is the plain printer's one-line rendering of the form; every pretty-printed
    rendering at a margin 20..120 must read to the same s-expression as it (verified checker,
    LexProofs.same_reading_sound: both texts lex and parse, and the readings agree up to 'x = (quote x), () = nil)
-   and must evaluate to the same object.
-   pp_guard: pp/quote.go:42 Quote.setLeft does not move its child, so a quoted list keeps the column it had in the
-   unbroken layout; when that column is 255 or more, breaking the list slices the 257-byte indent string out of
-   range [C19-pp-quote-indent]. The column in the unbroken layout is at most the column in the plain one-line text
-   (which writes (quote x) for 'x); the guard leaves out every form with a quoted list at column 250 or beyond. *)
+   and must evaluate to the same object. (The former pp_guard -- no quoted list, (:method ...) or (defmethod ...) at
+   column 250 or beyond -- is gone with repo_fixes/C19-28 and C19-29.) *)
 Definition wide_text (texts : list (N * tobs)) : option string :=
   match texts with (_, TText w _ _) :: _ => Some w | _ => None end.
 Definition texts_ok (texts : list (N * tobs)) : bool :=
@@ -41,8 +38,8 @@ Definition texts_ok (texts : list (N * tobs)) : bool :=
                          | TErr _ => false
                          end) texts
   end.
-(* where the pretty printer is known to fail (pp_guard, code_ok) a failure is excused, but every rendering it does
-   produce must still read and evaluate like the plain one *)
+(* where the pretty printer is known to change the text (code_ok: documentation strings) a failure is excused, but
+   every rendering it does produce must still read and evaluate like the plain one *)
 Definition texts_ok_lenient (texts : list (N * tobs)) : bool :=
   match wide_text texts with
   | None => true
@@ -53,20 +50,8 @@ Definition texts_ok_lenient (texts : list (N * tobs)) : bool :=
                          | TErr _ => true
                          end) texts
   end.
-Definition pp_guard (texts : list (N * tobs)) : bool :=
-  match wide_text texts with Some w => negb (far_quote_text (list_ascii_of_string w)) | None => true end.
-
-(* Code the pretty printer cannot be trusted with, wherever it is nested:
-   - (defvar ...) (defparameter ...) (defconstant ...) (defflavor ...) inside another form: pp/defvar.go and
-     pp/defflavor.go lay their parts out at absolute columns, and when the enclosing form is moved the indentation
-     becomes negative: a Go panic [C19-pp-nested-definition];
-   - a form with one of the heads of pp/fun1i2.go and no argument, e.g. (with-standard-io-syntax): index out of
-     range [C19-pp-empty-form]. *)
-Definition abs_layout_heads : list string := ["defvar"; "defparameter"; "defconstant"; "defflavor"].
-Definition fun1i2_heads : list string :=
-  ["block"; "defpackage"; "dotimes"; "dolist"; "do"; "do*"; "do-all-symbols"; "do-external-symbols"; "do-symbols"; "dovector";
-   "with-input-from-octets"; "with-zip-reader"; "with-zip-writer"; "with-input-from-string"; "with-open-file";
-   "with-open-stream"; "with-output-to-string"; "with-standard-io-syntax"; "make-instance"].
+(* Code the pretty printer cannot be trusted with, wherever it is nested (the clauses about nested defvar / defflavor
+   forms and about argument-less forms are gone with repo_fixes/C19-30 and C19-31): *)
 (* - a string in a documentation position of nested code is written by pp's Doc node (printer.go AppendDoc): it is
      re-flowed at the margin, loses every '_' and is not escaped [C19-doc-string-mangled]; only a single plain word
      survives every margin.  Documentation positions (over-approximated): any string argument of lambda, defun,
@@ -82,16 +67,14 @@ Fixpoint code_ok (top : bool) (f : obj) : bool :=
   match f with
   | L (Sym h :: args) =>
       if (h =? "quote")%string then true else
-      (top || negb (existsb (String.eqb h) abs_layout_heads))
-      && negb (existsb (String.eqb h) fun1i2_heads && match args with [] => true | _ => false end)
-      && (negb (existsb (String.eqb h) doc_heads) || str_args_ok args)
+      (negb (existsb (String.eqb h) doc_heads) || str_args_ok args)
       && (fix go (l : list obj) : bool := match l with [] => true | a :: r => code_ok false a && go r end) args
   | L xs => (fix go (l : list obj) : bool := match l with [] => true | a :: r => code_ok false a && go r end) xs
   | Lam ll doc body =>
       (top || doc_word_ok doc)
       && (fix go (l : list obj) : bool := match l with [] => true | a :: r => code_ok false a && go r end) ll
       && (fix go (l : list obj) : bool := match l with [] => true | a :: r => code_ok false a && go r end) body
-  | Dot xs _ | Vec xs _ _ | Arr _ xs _ _ =>
+  | Dot xs _ | Vec xs _ _ _ | Arr _ xs _ _ =>
       (fix go (l : list obj) : bool := match l with [] => true | a :: r => code_ok false a && go r end) xs
   | Hash kvs => (fix go (l : list (obj * obj)) : bool := match l with [] => true | (_, w) :: r => code_ok false w && go r end) kvs
   | _ => true
@@ -101,7 +84,7 @@ Fixpoint code_ok (top : bool) (f : obj) : bool :=
 Definition obs_meets_spec (v : obj) (r : robs) (equal : bool) (texts : list (N * tobs)) : bool :=
   match r with
   | ROk y => obj_eqb v y && (equal || has_lambda v)
-             && (if pp_guard texts && code_ok true v then texts_ok texts else texts_ok_lenient texts)
+             && (if code_ok true v then texts_ok texts else texts_ok_lenient texts)
   | _ => false
   end.
 
@@ -136,8 +119,14 @@ Fixpoint load_unmodelled (s : session) (forms : list obj) : bool :=
               | Err _ => load_unmodelled s r
               end
   end.
-(* documentation strings the pretty printer leaves alone (printer.go:760 AppendDoc), short enough for margin 120 *)
-Definition doc_text_ok (d : string) : bool := doc_chars_ok d && (String.length d <=? 100)%nat.
+(* documentation strings the pretty printer leaves alone (printer.go AppendCodeDoc: double quotes and backslashes are
+   escaped since repo_fixes/C19-17; an underscore is still dropped and a long text still re-flowed
+   [C19-doc-string-mangled]), short enough for margin 120 *)
+Definition doc_char_ok' (c : ascii) : bool :=
+  let n := nat_of_ascii c in ((32 <=? n) && (n <? 127) && negb (n =? 95))%nat.
+Fixpoint doc_chars_ok' (s : string) : bool :=
+  match s with EmptyString => true | String c r => doc_char_ok' c && doc_chars_ok' r end.
+Definition doc_text_ok (d : string) : bool := doc_chars_ok' d && (String.length d <=? 100)%nat.
 Definition docs_ok (s : session) : bool :=
   forallb (fun kv => doc_text_ok (v_doc (snd kv))
                      && match v_val (snd kv) with Some (Flv _ _ _ _ _ d) => doc_text_ok d | _ => true end) (s_vars s) && forallb (fun kv => doc_text_ok (f_doc (snd kv))) (s_funs s).
@@ -153,11 +142,6 @@ Definition check_session (hist : list obj) (wildtext snapfail : bool) (snap1 : l
       let '(s2, oks) := load_forms empty_session ms1 in
       let ms2 := snapshot s2 in
       if load_unmodelled empty_session ms1 then 0%N else
-      (* a function that calls a later-named user function or macro is reloaded through the evaluator's forward
-         reference placeholder, which the model does not describe [C19-snapshot-forward-reference] *)
-      if negb (forallb (calls_ok (s_funs s)) (s_funs s)) then 0%N else
-      (* two or more flavors are written in an order that is not a function of the session [C19-flavor-order-unstable] *)
-      if (2 <=? List.length (filter is_flavor_var (s_vars s)))%nat then 0%N else
       let agree := objs_eqb ms1 snap1 && bools_eqb oks loadok && objs_eqb ms2 snap2 in
       let g := sess_ok_x s && docs_ok s && forallb (fun kv => forallb (code_ok false) (f_ll (snd kv) ++ f_body (snd kv))) (s_funs s) in
       let obs_ok := forallb (fun b => b) loadok && objs_eqb snap2 snap1 && textsame && probesame in
@@ -173,7 +157,7 @@ Definition check_case (c : case) : N :=
       check_session hist wildtext snapfail snap1 loadok snap2 textsame probesame
   | DCase v FNone _ _ _ => 0%N      (* nil offers no LoadForm method *)
   | DCase v form r equal texts =>
-      let g := loadable v in
+      let g := loadable v && no_inst v in
       if model_agrees v form r then
         if g then
           match reload v with
@@ -191,12 +175,10 @@ Fixpoint check_all_from (i : N) (cs : list case) : list (N * N) :=
   end.
 Definition check_all := check_all_from 0%N.
 
-Definition far_quote_count (cs : list case) : N :=
-  N.of_nat (List.length (filter (fun c => match c with DCase _ _ _ _ texts => negb (pp_guard texts) | _ => false end) cs)).
 Definition guarded (c : case) : bool :=
   match c with
   | DCase v FNone _ _ _ => false
-  | DCase v _ _ _ _ => loadable v
+  | DCase v _ _ _ _ => loadable v && no_inst v
   | SCase hist wildtext _ _ _ _ _ _ =>
       negb wildtext && match run empty_session hist with
                        | Ok s => sess_ok_x s && docs_ok s && forallb (fun kv => forallb (code_ok false) (f_ll (snd kv) ++ f_body (snd kv))) (s_funs s)
@@ -210,7 +192,7 @@ Definition session_skipped (cs : list case) : N :=
      | SCase hist wildtext _ _ _ _ _ _ =>
          wildtext || match run empty_session hist with
                      | Err EUnmodelled => true
-                     | Ok s => load_unmodelled empty_session (snapshot s) || negb (forallb (calls_ok (s_funs s)) (s_funs s))
+                     | Ok s => load_unmodelled empty_session (snapshot s)
                      | _ => false
                      end
      | _ => false end) cs)).
